@@ -58,6 +58,19 @@ fn main() {
 struct Cx<'tcx> {
     tcx: TyCtxt<'tcx>,
     krate: String,
+    files: std::cell::RefCell<(std::collections::HashMap<String, usize>, Vec<String>)>,
+    callees: std::cell::RefCell<(std::collections::HashMap<String, usize>, Vec<String>)>,
+}
+
+fn intern(t: &std::cell::RefCell<(std::collections::HashMap<String, usize>, Vec<String>)>, s: String) -> usize {
+    let mut g = t.borrow_mut();
+    if let Some(i) = g.0.get(&s) {
+        return *i;
+    }
+    let i = g.1.len();
+    g.0.insert(s.clone(), i);
+    g.1.push(s);
+    i
 }
 
 impl<'tcx> Cx<'tcx> {
@@ -77,8 +90,9 @@ impl<'tcx> Cx<'tcx> {
         let lo = sm.lookup_char_pos(sp.lo());
         let hi = sm.lookup_char_pos(sp.hi());
         let file = format!("{}", lo.file.name.prefer_local_unconditionally());
+        let file = intern(&self.files, file);
         J::O(vec![
-            ("file", J::s(file)),
+            ("file", J::n(file)),
             ("line", J::n(lo.line)),
             ("col", J::n(lo.col.0)),
             ("end_line", J::n(hi.line)),
@@ -178,6 +192,13 @@ impl<'tcx> Cx<'tcx> {
     }
 
     fn callee(&self, owner: DefId, did: DefId, args: ty::GenericArgsRef<'tcx>) -> J {
+        let j = self.callee_full(owner, did, args);
+        let mut out = String::new();
+        j.write(&mut out);
+        J::n(intern(&self.callees, out))
+    }
+
+    fn callee_full(&self, owner: DefId, did: DefId, args: ty::GenericArgsRef<'tcx>) -> J {
         let tcx = self.tcx;
         let path = self.path(did);
         let full = with_no_trimmed_paths!(tcx.def_path_str_with_args(did, args));
@@ -576,7 +597,12 @@ impl<'tcx> Visitor<'tcx> for UnsafeFinder<'tcx> {
 
 fn extract<'tcx>(tcx: TyCtxt<'tcx>, dir: &str) {
     let krate = tcx.crate_name(LOCAL_CRATE).to_string();
-    let cx = Cx { tcx, krate: krate.clone() };
+    let cx = Cx {
+        tcx,
+        krate: krate.clone(),
+        files: Default::default(),
+        callees: Default::default(),
+    };
     let is_test = tcx.sess.opts.test;
     let mut fns = Vec::new();
     let mut adts = Vec::new();
@@ -789,6 +815,8 @@ fn extract<'tcx>(tcx: TyCtxt<'tcx>, dir: &str) {
         ("traits", J::A(traits)),
         ("mods", J::A(mods)),
         ("unsafe_blocks", J::A(unsafe_blocks)),
+        ("files", J::A(cx.files.borrow().1.iter().map(|f| J::s(f.clone())).collect())),
+        ("callees", J::A(cx.callees.borrow().1.iter().map(|f| J::Raw(f.clone())).collect())),
     ]);
     let mut out = String::new();
     root.write(&mut out);
